@@ -200,8 +200,9 @@ def run(run_, ctx):
         "ADT tables of the four declaration pairs are compared variant-by-variant (names, order, constructor kind, field names/order, types modulo "
         "transparent wrappers). The eight serde-derived Serialize bodies are explored from MIR: per enum arm / struct the Serializer method, variant index, "
         "variant name and ordered field names with their value types must agree between the borrowed and owned family, and indices follow declaration order. "
-        "Each arm of the four From conversions must build the same-named variant and fill each field from the same-named source field through "
-        "into/Box::new/iter().map(into).collect() only.")
+        "The generated (de)serialisation of the owned family may call only generated code and other crates (no hand-written hook). "
+        "Each arm of every conversion fn(&Borrowed) -> Owned (the From impls and whatever they forward to; constructor helpers are analysed in place) must build "
+        "the same-named variant and fill each field from the same-named source field through conversions/Box::new/iter().map(conversion).collect() only.")
     run_.trusted += ["serde_derive", "postcard wire encoding of the Serializer calls (C02)"]
 
 
